@@ -444,17 +444,18 @@ prop(
     ["char::is_whitespace / is_alphanumeric replaced by their exact answers on the 5-character alphabet"],
 )
 CH_STUB = "char::is_whitespace / char::is_alphanumeric -> exact answers on the alphabet"
-for nm, q in [("len0", True), ("len1", True), ("len2_a", False), ("len2_space", True), ("len2_plus", False), ("len2_e_acute", True), ("len2_emoji", False),
-              ("len3_space", False), ("len3_a", False)]:
+for nm, q in [("len0", True), ("len1", True), ("len2_a", False), ("len2_space", True), ("len2_plus", False), ("len2_e_acute", True), ("len2_emoji", False)]:
+    # (c20_motion_len3_space / _len3_a timed out at 3000 s in the thorough validation run: not registered)
     H("C20", f"debugger::command::reader::terminal::verif_h::c20_motion_{nm}", TERMF, tier=("quick" if q else "thorough"), covers=2, timeout=3000, mem_gb=30,
       stubs=[CH_STUB], functions=["find_word_next", "find_word_back", "count_chars_bytes"],
       what=f"word motions + index conversion on the strings '{nm}' (length / first character; the rest enumerated over the 5-character alphabet) x every cursor x both word modes (symbolic)",
-      bounds="<= 3 characters")
-for nm, q in [("len0_a", True), ("len1_a", True), ("len1_e_acute", False), ("len1_emoji", True), ("len2_emoji", False)]:
+      bounds="<= 2 characters")
+for nm, q in [("len0_a", True), ("len1_a", True), ("len1_e_acute", False), ("len1_emoji", True)]:
+    # (c20_edit_len2_emoji timed out at 3000 s in the thorough validation run: not registered)
     H("C20", f"debugger::command::reader::terminal::verif_h::c20_edit_{nm}", TERMF, tier=("quick" if q else "thorough"), covers=2, timeout=3000, mem_gb=30,
       functions=["insert_char_index", "remove_char_index", "count_chars_bytes"],
       what=f"insert/remove of the character in '{nm}' at a character index: (string, cursor) state picked by the solver among all strings of that length x every cursor",
-      bounds="<= 2 characters")
+      bounds="<= 1 character before the edit")
 # (get_next_command's `find(';')` goes through core's memchr: 1.7 M symex steps for a 2-byte line, out of memory -- not registered)
 
 # ------------------------------------------------------------------ C15
